@@ -482,4 +482,210 @@ theorem c_abort (i : SInput) (hlate : (finalC i).late = []) : cAbort i (modelC i
           simp only [Bool.and_eq_true, decide_eq_true_eq, beq_iff_eq]
           exact ⟨⟨⟨h1, h2⟩, h3⟩, h4⟩
 
+/-! ### broken runner -/
+
+def isBE : Call × Bool → Bool
+  | (.outcome .error .broken, _) => true
+  | _ => false
+
+theorem be_of_calls (w : Nat) : ∀ sec : Section,
+    ((sec.map fun c => ((w + 1, EvK.call c.1 c.2) : Ev)).filter (isBrokenError w)).length = (sec.filter isBE).length
+  | [] => rfl
+  | (c, r) :: sec => by
+      have ih := be_of_calls w sec
+      simp only [List.map_cons, List.filter_cons]
+      cases c with
+      | outcome k id =>
+        cases k <;> cases id <;> simp [isBrokenError, isBE, ih]
+      | time t => simp [isBrokenError, isBE, ih]
+      | startTest id => simp [isBrokenError, isBE, ih]
+      | stopTest id => simp [isBrokenError, isBE, ih]
+      | tags a b => simp [isBrokenError, isBE, ih]
+      | ctl k => simp [isBrokenError, isBE, ih]
+
+theorem be_of_other (w j : Nat) (hj : j ≠ w + 1) : ∀ sec : Section,
+    ((sec.map fun c => ((j, EvK.call c.1 c.2) : Ev)).filter (isBrokenError w)) = []
+  | [] => rfl
+  | (c, r) :: sec => by
+      have ih := be_of_other w j hj sec
+      simp only [List.map_cons, List.filter_cons, ih]
+      cases c with
+      | outcome k id => cases k <;> cases id <;> simp [isBrokenError, hj]
+      | time t => simp [isBrokenError]
+      | startTest id => simp [isBrokenError]
+      | stopTest id => simp [isBrokenError]
+      | tags a b => simp [isBrokenError]
+      | ctl k => simp [isBrokenError]
+
+theorem be_secEvents (w j : Nat) (sec : Section) :
+    ((secEvents (j, sec)).filter (isBrokenError w)).length = if j = w + 1 then (sec.filter isBE).length else 0 := by
+  have e1 : isBrokenError w (j, EvK.acq) = false := rfl
+  have e2 : isBrokenError w (j, EvK.rel) = false := rfl
+  simp only [secEvents, List.filter_cons, e1, e2, List.filter_append, List.filter_nil, List.append_nil, Bool.false_eq_true, if_false]
+  split
+  · rename_i hj; subst hj; exact be_of_calls w sec
+  · rename_i hj; rw [be_of_other w j hj sec]; rfl
+
+theorem be_flat (w : Nat) : ∀ closed : List (Nat × Section),
+    ((flatLog closed).filter (isBrokenError w)).length = (((ownedBy (w + 1) closed).flatten).filter isBE).length
+  | [] => by simp [flatLog, ownedBy]
+  | p :: closed => by
+      have ih := be_flat w closed
+      obtain ⟨j, sec⟩ := p
+      simp only [flatLog, List.map_cons, List.flatten_cons, List.filter_append, List.length_append] at ih ⊢
+      rw [be_secEvents, ih]
+      by_cases hj : j = w + 1
+      · subst hj; simp [ownedBy]
+      · have hne : (j == w + 1) = false := by simp [hj]
+        simp [hj, ownedBy, hne]
+
+theorem emit_nofault : ∀ (cs : List Call) (n : Nat), emit [] n cs = (cs.map (·, false), n + cs.length, false)
+  | [], n => by simp [emit]
+  | c :: cs, n => by simp [emit, emit_nofault cs (n + 1)]; omega
+
+theorem preCalls_noBE (l : Loc) (id : TId) : ((preCalls l id).map (·, false)).filter isBE = [] := by
+  unfold preCalls
+  by_cases hg : anyTags l.gtags = true <;> by_cases ht : anyTags l.ttags = true <;> simp [hg, ht, isBE]
+
+/-- without injected faults an operation never raises, and only `addError(broken-runner)` reports the broken runner -/
+theorem stepOp_nofault (l : Loc) (o : Op) :
+    (stepOp [] l o).raised = false ∧
+    (((stepOp [] l o).sec.getD []).filter isBE).length = (if o = .outcome .error .broken then 1 else 0) := by
+  cases o with
+  | time t => simp [stepOp]
+  | tags a b => simp [stepOp]
+  | startTest id => simp [stepOp]
+  | stopTest id => simp [stepOp]
+  | ctl c => simp [stepOp, isBE]
+  | outcome k id =>
+    simp only [stepOp, emit_nofault]
+    simp only [Bool.false_eq_true, if_false, List.contains_nil, Bool.or_self, Option.getD_some, List.filter_append, preCalls_noBE,
+      List.nil_append, true_and]
+    cases k <;> cases id <;> simp [isBE, List.filter]
+
+theorem sectionsAbort_nofault : ∀ (ops : List Op) (l : Loc),
+    (sectionsAbort [] l ops).2.2 = false ∧
+    (((sectionsAbort [] l ops).1.flatten).filter isBE).length = (ops.filter (· == .outcome .error .broken)).length
+  | [], _ => by simp [sectionsAbort]
+  | o :: os, l => by
+      obtain ⟨h1, h2⟩ := stepOp_nofault l o
+      obtain ⟨ih1, ih2⟩ := sectionsAbort_nofault os (stepOp [] l o).loc
+      simp only [sectionsAbort, h1, Bool.false_eq_true, if_false]
+      refine ⟨ih1, ?_⟩
+      cases hsec : (stepOp [] l o).sec with
+      | none =>
+        simp only [hsec, Option.getD_none, List.filter_nil, List.length_nil] at h2
+        simp only [List.nil_append, ih2, List.filter_cons]
+        by_cases ho : o = .outcome .error .broken
+        · simp [ho] at h2
+        · simp [ho]
+      | some sc =>
+        simp only [hsec, Option.getD_some] at h2
+        simp only [List.cons_append, List.nil_append, List.flatten_cons, List.filter_append, List.length_append, h2, ih2, List.filter_cons]
+        by_cases ho : o = .outcome .error .broken
+        · simp [ho]; omega
+        · simp [ho]
+
+theorem testsOps_noBroken : ∀ (ts : List WTest) (j : Nat), (testsOps j ts).filter (· == .outcome .error .broken) = []
+  | [], _ => rfl
+  | t :: ts, j => by
+      simp only [testsOps, List.filter_append, testsOps_noBroken ts (j + 1), List.append_nil, testOps]
+      simp
+
+theorem suite_broken_count (wi : Nat) (w : Worker) (hf : w.faults = []) :
+    (((segSecs (suiteProg wi w).segs).flatten).filter isBE).length = (if w.boom then 1 else 0) := by
+  rw [suiteProg_secs, hf]
+  obtain ⟨h1, h2⟩ := sectionsAbort_nofault (testsOps 0 w.tests) {}
+  simp only [h1, Bool.false_or, List.flatten_append, List.filter_append, List.length_append, h2, testsOps_noBroken,
+    List.length_nil, Nat.zero_add]
+  split
+  · obtain ⟨_, h4⟩ := sectionsAbort_nofault brokenOps (sectionsAbort [] {} (testsOps 0 w.tests)).2.1
+    rw [h4]; simp [brokenOps]
+  · rfl
+
+theorem count_via_sinkOf (ev : SEv) : ∀ sink : List (SEv × Bool),
+    (sink.filter fun p => p.1 == ev).length = ((Conc.sinkOf ev.w sink).filter (· == ev)).length
+  | [] => rfl
+  | p :: sink => by
+      have ih := count_via_sinkOf ev sink
+      simp only [Conc.sinkOf, List.filter_cons] at ih ⊢
+      by_cases h1 : p.1 = ev
+      · simp [h1, ih]
+      · have hne : (p.1 == ev) = false := by simp [h1]
+        by_cases h2 : p.1.w = ev.w
+        · simp [hne, h2, ih]
+        · have : (p.1.w == ev.w) = false := by simp [h2]
+          simp [hne, this, ih]
+
+theorem testsEvents_noBroken (wi : Nat) (ev : SEv) (hev : ev.id = .broken) : ∀ (ts : List WTest) (j : Nat),
+    (testsEvents wi j ts).filter (· == ev) = []
+  | [], _ => rfl
+  | t :: ts, j => by
+      have hne : ∀ k : SKind, ((⟨wi, .t j, k⟩ : SEv) == ev) = false := by
+        intro k; simp; intro hc; rw [← hc] at hev; cases hev
+      simp [testsEvents, List.filter_cons, hne, testsEvents_noBroken wi ev hev ts (j + 1)]
+
+theorem fileEvents_noFail (wi : Nat) : ∀ n : Nat, (fileEvents wi n).filter (· == (⟨wi, .broken, .st .fail⟩ : SEv)) = []
+  | 0 => by simp [fileEvents]
+  | 1 => by simp [fileEvents]
+  | n + 2 => by simp [fileEvents, List.filter_cons, fileEvents_noFail wi (n + 1)]
+
+theorem stream_broken_count (wi tb : Nat) (w : Worker) :
+    ((streamEvents wi tb w).filter (· == (⟨wi, .broken, .st .fail⟩ : SEv))).length = (if w.boom then 1 else 0) := by
+  unfold streamEvents
+  rw [List.filter_append, testsEvents_noBroken wi _ rfl]
+  split
+  · simp [brokenEvents, List.filter_cons, List.filter_append, fileEvents_noFail]
+  · rfl
+
+theorem c_brokenRunner (i : SInput) : cBrokenRunner i (modelC i) = true := by
+  unfold cBrokenRunner
+  simp only [List.all_eq_true, List.mem_range]
+  intro w hwn
+  simp only [nWorkers] at hwn
+  have hwk : i.workers[w]? = some i.workers[w] := by simp [hwn]
+  simp only [workerAt, hwk]
+  cases hf : i.flavour with
+  | stream =>
+    by_cases hres : (finalC i).result = some .returned
+    · have hr := RInv_final i
+      have hq := QInv_final i
+      obtain ⟨hreg, hnsp, _⟩ := hr.r_returned hres
+      have hacct := final_sink_acct i w hwn
+      have htodo : todoItems (finalC i) w = [] := by
+        by_cases hc : todoItems (finalC i) w = []
+        · exact hc
+        · have := (hq.reg_iff w).mpr ⟨by omega, hc⟩
+          rw [hreg] at this; cases this
+      rw [htodo] at hacct
+      simp only [statusesOf, List.filterMap_nil, List.append_nil] at hacct
+      have hcount : brokenFails w (modelC i) = (if i.workers[w].boom then 1 else 0) := by
+        simp only [brokenFails, modelC, traceOf, List.filter_map, List.length_map]
+        have := count_via_sinkOf (⟨w, .broken, .st .fail⟩ : SEv) (finalC i).sink
+        simp only [Function.comp_def] at this ⊢
+        rw [this, hacct, eventsOf_stream i hf]
+        simp only [wEvents, workerAt, hwk]
+        exact stream_broken_count w i.tb _
+      simp [hcount]
+    · have : ((modelC i).result != some .returned) = true := by
+        simp only [modelC, traceOf]; simpa using hres
+      simp [this]
+  | suite =>
+    obtain ⟨closed, hlog, _, _, hw⟩ := final_log i
+    have hsp : (modelC i).spawned.contains w = decide (w < (finalC i).nsp) := by
+      simp only [modelC, traceOf]; exact range_contains _ _
+    rw [hsp]
+    by_cases hlt : w < (finalC i).nsp
+    · by_cases hfl : i.workers[w].faults = []
+      · have hcount : brokenErrors w (modelC i) = (if i.workers[w].boom then 1 else 0) := by
+          show ((finalC i).base.log.filter (isBrokenError w)).length = _
+          rw [hlog, be_flat, hw w hwn]
+          simp only [hlt, if_true]
+          rw [secsC_succ i _ w _ hwk]
+          simp only [progOf, hf]
+          exact suite_broken_count w _ hfl
+        simp [hcount]
+      · simp [hfl]
+    · simp [hlt]
+
 end TTV.Props.C13
